@@ -185,15 +185,30 @@ func runC35Multi(t *testing.T, tr emitter, caseID int64, c vt.Case) {
 		tr.Emit(ev)
 	})
 
-	// appendSamples writes nblocks seconds worth of samples ending `ago` before now
-	appendSamples := func(tn string, nblocks int, ago time.Duration) {
+	// appendSamples writes nblocks seconds worth of samples. The periodic head compaction advances an idle
+	// tenant's head window by one block per tick (wall-clock driven), i.e. the oldest appendable time follows
+	// the clock at the distance of the first batch (30 s). The first batch of a tenant therefore starts (block
+	// aligned) 30 s ago and every later batch 20 s ago - or one block after the previous batch, whichever is
+	// later: always in bounds, and always far enough in the past for the tenant to count as idle (3 s).
+	lastEnd := map[string]int64{}
+	appendSamples := func(tn string, nblocks int) {
 		app, err := m.TenantAppendable(tn)
 		if err != nil {
 			t.Fatal(err)
 		}
-		end := time.Now().Add(-ago).UnixMilli()
-		end -= end % mtBlockMs // block aligned
-		start := end - int64(nblocks)*mtBlockMs
+		var start int64
+		if le, ok := lastEnd[tn]; ok {
+			start = time.Now().Add(-20 * time.Second).UnixMilli()
+			start -= start % mtBlockMs
+			if start < le+mtBlockMs {
+				start = le + mtBlockMs
+			}
+		} else {
+			start = time.Now().Add(-30 * time.Second).UnixMilli()
+			start -= start % mtBlockMs
+		}
+		end := start + int64(nblocks)*mtBlockMs
+		lastEnd[tn] = end
 		waitFor(t, "tenant TSDB ready", 30*time.Second, func() bool {
 			ap, err := app.Appender(ctx)
 			if err != nil {
@@ -201,7 +216,7 @@ func runC35Multi(t *testing.T, tr emitter, caseID int64, c vt.Case) {
 			}
 			for ts := start + 100; ts < end; ts += 300 {
 				if _, err := ap.Append(0, labels.FromStrings("__name__", "m", "tenant", tn), ts, float64(ts%1000)); err != nil {
-					t.Fatalf("append: %v", err)
+					t.Fatalf("append: %v (tenant %s ts %d start %d end %d now %d)", err, tn, ts, start, end, time.Now().UnixMilli())
 				}
 			}
 			if err := ap.Commit(); err != nil {
@@ -211,7 +226,7 @@ func runC35Multi(t *testing.T, tr emitter, caseID int64, c vt.Case) {
 		})
 	}
 	for i, tn := range tenants {
-		appendSamples(tn, ntb[i], 20*time.Second)
+		appendSamples(tn, ntb[i])
 	}
 	// the code's periodic head compaction (every max-block-duration) cuts the blocks
 	for i, tn := range tenants {
@@ -288,7 +303,7 @@ func runC35Multi(t *testing.T, tr emitter, caseID int64, c vt.Case) {
 				for _, b := range mtLocal(work, tn, al) {
 					seen[b.alias] = true
 				}
-				appendSamples(tn, 1, 8*time.Second)
+				appendSamples(tn, 1)
 				// wait until the new block was cut (the block reload that follows applies the TSDB retention)
 				waitFor(t, "head compaction after append of "+tn, 60*time.Second, func() bool {
 					for _, b := range mtLocal(work, tn, al) {
